@@ -1,6 +1,7 @@
 package vrt
 
 import (
+	"fmt"
 	"unsafe"
 )
 
@@ -15,7 +16,8 @@ type Timer struct {
 	kind    int
 	Fire    func(nowNS int64)
 	th      *Thread
-	harness bool // armed by the test harness, not by the code under test
+	fn      func() // kind 2: the function, kept for a Reset after it has fired
+	harness bool   // armed by the test harness, not by the code under test
 }
 
 //go:norace
@@ -93,6 +95,9 @@ func (x *Exec) fireNextTimer() {
 		tm.active = false
 	}
 	tm.fired = true
+	if x.stepTrace {
+		x.res.StepTrace = append(x.res.StepTrace, fmt.Sprintf("t=%-9d CLOCK fires a timer of kind %d (0 channel, 1 sleep, 2 AfterFunc)", x.now, tm.kind))
+	}
 	if tm.Fire != nil {
 		syncOff()
 		tm.Fire(x.now)
@@ -142,11 +147,13 @@ func (tm *Timer) Reset(d int64) bool {
 	was := tm.active
 	if tm.kind == 2 {
 		if tm.fired {
-			// the function already started: Go would start it again; not needed by the code under test
-			x.fatal("vrt: Reset of an AfterFunc timer that already fired is not modelled")
-			return false
-		}
-		if tm.th != nil {
+			// the function has been released already (running, finished, or about to start): like Go,
+			// arm a further invocation on a goroutine of its own and leave the earlier one alone
+			if old := tm.th; old != nil && old.pend.kind == OpTimerStart && old.pend.tm == tm {
+				old.pend.tm = &Timer{kind: 2, fired: true}
+			}
+			tm.th = x.newThread("afterfunc", tm.fn, pending{kind: OpTimerStart, tm: tm})
+		} else if tm.th != nil {
 			tm.th.dormant = false
 		}
 	}
@@ -203,7 +210,7 @@ func sleep(d int64, harness bool) {
 //go:norace
 func AfterFunc(d int64, f func()) *Timer {
 	x := cur
-	tm := &Timer{kind: 2}
+	tm := &Timer{kind: 2, fn: f}
 	if x == nil || x.aborting {
 		return tm
 	}
